@@ -1563,6 +1563,10 @@ fn run_inner(a: &Args) {
     command_encoder(&mut cx);
     sweeps(&mut cx);
     codec_enumeration(&mut cx);
+    // the static reply constructors of RespValue
+    for rv in [RespValue::ok(), RespValue::pong(), RespValue::queued(), RespValue::nil(), RespValue::simple_string("dyn\r\nx".to_string()), RespValue::empty_array(), RespValue::err("ERR e"), RespValue::simple("s")] {
+        check_roundtrip(&mut cx, &V::from_rv(&rv), "static-constructors");
+    }
     // round trips of all small values
     for v in all_small_values() {
         check_roundtrip(&mut cx, &v, "all-small");
